@@ -6,6 +6,12 @@ var IteratorInterface *Interface
 // ::Std::Iterator::Base
 var IteratorBaseMixin *Mixin
 
+// ::Std::ResettableIterator
+var ResettableIteratorInterface *Interface
+
+// ::Std::ResettableIterator::Base
+var ResettableIteratorBaseMixin *Mixin
+
 func initIterator() {
 	IteratorInterface = NewInterface()
 	StdModule.AddConstantString("Iterator", Ref(IteratorInterface))
@@ -14,4 +20,20 @@ func initIterator() {
 	IteratorBaseMixin = NewMixin()
 	IteratorInterface.AddConstantString("Base", Ref(IteratorBaseMixin))
 	RegisterNativeMixin("Std::Iterator::Base", "value.IteratorBaseMixin")
+
+	ResettableIteratorInterface = NewInterface()
+	StdModule.AddConstantString("ResettableIterator", Ref(ResettableIteratorInterface))
+	RegisterNativeInterface("Std::ResettableIterator", "value.ResettableIteratorInterface")
+
+	ResettableIteratorBaseMixin = NewMixin()
+	ResettableIteratorBaseMixin.IncludeMixin(IteratorBaseMixin)
+	ResettableIteratorInterface.AddConstantString("Base", Ref(ResettableIteratorBaseMixin))
+	RegisterNativeMixin("Std::ResettableIterator::Base", "value.ResettableIteratorBaseMixin")
+
+	// iterators of classes that are initialised before `Iterator`
+	GeneratorClass.IncludeMixin(IteratorBaseMixin)
+	IntIteratorClass.IncludeMixin(IteratorBaseMixin)
+	StringCharIteratorClass.IncludeMixin(IteratorBaseMixin)
+	StringByteIteratorClass.IncludeMixin(IteratorBaseMixin)
+	StringGraphemeIteratorClass.IncludeMixin(IteratorBaseMixin)
 }
